@@ -53,7 +53,7 @@ Theorem finished_absorbing s op payload offered capn :
     /\ is_finished s' = true /\ oracle s' = oracle s /\ total_out_ s' = total_out_ s
     /\ (offered <> 0 -> r = false).
 Proof.
-  intros Hi Hr Hf. unfold compress_stream. rewrite (ensure_initialized_id s Hi). fold (io0 offered capn).
+  intros Hi Hr Hf. unfold compress_stream, compress_stream_from. rewrite (ensure_initialized_id s Hi). fold (io0 offered capn).
   rewrite Hr. rewrite N.eqb_refl. cbn [negb andb].
   assert (Hs : sstate_ s = SFinished).
   { unfold is_finished in Hf. apply andb_true_iff in Hf. destruct Hf as [H1 _]. apply sstate_eqb_spec; exact H1. }
@@ -95,7 +95,7 @@ Theorem metadata_midblock_refused s op payload offered capn :
   (offered <> rem_meta s \/ op <> OpMeta) ->
   compress_stream s op payload offered capn = Done (false, s, io0 offered capn).
 Proof.
-  intros Hi Hr Hv. unfold compress_stream. rewrite (ensure_initialized_id s Hi). fold (io0 offered capn).
+  intros Hi Hr Hv. unfold compress_stream, compress_stream_from. rewrite (ensure_initialized_id s Hi). fold (io0 offered capn).
   destruct (N.eqb_spec (rem_meta s) U32MAX) as [E|_]; [contradiction|]. cbn [negb andb].
   destruct Hv as [Hv|Hv].
   - destruct (N.eqb_spec offered (rem_meta s)) as [E|_]; [contradiction|]. reflexivity.
@@ -106,7 +106,7 @@ Theorem metadata_oversize_refused s payload offered capn :
   initialized s = true -> rem_meta s = U32MAX -> 2 ^ 24 < offered ->
   compress_stream s OpMeta payload offered capn = Done (false, update_size_hint s 0, io0 offered capn).
 Proof.
-  intros Hi Hr Hv. unfold compress_stream. rewrite (ensure_initialized_id s Hi). fold (io0 offered capn).
+  intros Hi Hr Hv. unfold compress_stream, compress_stream_from. rewrite (ensure_initialized_id s Hi). fold (io0 offered capn).
   rewrite Hr, N.eqb_refl. cbn [negb andb opk_eqb]. unfold process_metadata. cbn [avail_in io0].
   destruct (N.ltb_spec (2 ^ 24) offered) as [_|H]; [reflexivity|lia].
 Qed.
@@ -116,7 +116,7 @@ Theorem input_refused_unless_processing s op payload offered capn :
   sstate_ s <> SProcessing -> offered <> 0 ->
   compress_stream s op payload offered capn = Done (false, s, io0 offered capn).
 Proof.
-  intros Hi Hr Hop Hs Ho. unfold compress_stream. rewrite (ensure_initialized_id s Hi). fold (io0 offered capn).
+  intros Hi Hr Hop Hs Ho. unfold compress_stream, compress_stream_from. rewrite (ensure_initialized_id s Hi). fold (io0 offered capn).
   rewrite Hr, N.eqb_refl. cbn [negb andb].
   assert (Eop : opk_eqb op OpMeta = false) by (destruct op; try reflexivity; contradiction Hop; reflexivity).
   rewrite Eop.
@@ -355,7 +355,7 @@ Theorem flush_completed_aligned s payload offered capn s' x' :
    (* one/two-pass path: it never touches the position counters *)
    (input_pos s' = input_pos s /\ last_flush_pos s' = last_flush_pos s)).
 Proof.
-  intros Hi Hr Hok Hst Hle Hrun Hai Hao. unfold compress_stream in Hrun.
+  intros Hi Hr Hok Hst Hle Hrun Hai Hao. unfold compress_stream, compress_stream_from in Hrun.
   rewrite (ensure_initialized_id s Hi) in Hrun. rewrite Hr, N.eqb_refl in Hrun. cbn [negb andb opk_eqb] in Hrun.
   assert (Hnm : sstate_eqb (sstate_ s) SMetaHead || sstate_eqb (sstate_ s) SMetaBody = false).
   { destruct Hst as [Hp|[Hp _]]; rewrite Hp; reflexivity. }
@@ -403,4 +403,315 @@ Proof.
   destruct (N.ltb_spec (lenN (view s)) (N.min (avail_out_ s) n)) as [E|_]; [lia|].
   eexists; eexists. split; [reflexivity|]. cbn [produced avail_in in_off io_push].
   repeat split; reflexivity.
+Qed.
+
+(* ====================================================================================== *)
+(* C13: byte accounting.  After any stream call the caller's total_out cell (seeded by the   *)
+(* C ABI with the encoder's running total) equals the running total, and the running total   *)
+(* grew by exactly the number of bytes the call delivered.                                   *)
+(* ====================================================================================== *)
+Lemma lenN_app (a b : list N) : lenN (a ++ b) = lenN a + lenN b.
+Proof. unfold lenN. rewrite app_length. lia. Qed.
+
+Lemma lenN_takeN n (v : list N) : n <= lenN v -> lenN (takeN n v) = n.
+Proof.
+  unfold lenN, takeN. intros H. rewrite firstn_length_le; lia.
+Qed.
+
+Lemma w64_w64_add a b : w64 (w64 a + b) = w64 (a + b).
+Proof. unfold w64. rewrite N.add_mod_idemp_l by discriminate. reflexivity. Qed.
+
+Definition acct (T0 : N) (s : st) (x : io) : Prop :=
+  total_arg x = total_out_ s /\ total_out_ s = w64 (T0 + lenN (produced x)).
+
+Lemma acct_padding T0 s s' x : acct T0 s x -> inject_byte_padding_block s = Done s' -> acct T0 s' x.
+Proof.
+  unfold acct, inject_byte_padding_block, write_at_cursor. intros [A B] H.
+  cbn [next_out upd_bits] in H.
+  destruct (next_out s) eqn:En; cbn [next_out upd_bits upd_out] in H; try rewrite En in H;
+    match type of H with context [if ?c then _ else _] => destruct c end; try discriminate;
+    inversion H; subst s'; clear H; cbn; split; assumption.
+Qed.
+
+Lemma acct_inject T0 s x s' x' : acct T0 s x ->
+  inject_flush_or_push_output s x = Done (Some (s', x')) -> acct T0 s' x'.
+Proof.
+  unfold inject_flush_or_push_output. intros Hk H.
+  destruct (sstate_eqb (sstate_ s) SFlushRequested && negb (last_bytes_bits s =? 0)).
+  - destruct (inject_byte_padding_block s) as [s1| | |] eqn:E; try discriminate.
+    inversion H; subst s1 x'; clear H. eapply acct_padding; eassumption.
+  - destruct (negb (avail_out_ s =? 0) && negb (cap x =? 0)); try discriminate.
+    destruct (N.ltb_spec (lenN (view s)) (N.min (avail_out_ s) (cap x))) as [|Hlen]; try discriminate.
+    inversion H; subst s' x'; clear H. destruct Hk as [A B]. unfold acct. cbn.
+    split; [reflexivity|]. rewrite lenN_app, (lenN_takeN _ _ Hlen). unfold wadd64. rewrite B.
+    rewrite w64_w64_add. f_equal. lia.
+Qed.
+
+Lemma encode_data_total s il ff r s2 : encode_data s il ff = Done (r, s2) -> total_out_ s2 = total_out_ s.
+Proof.
+  unfold encode_data. intros H. destruct (oracle s) as [|a rest]; [discriminate|].
+  repeat match type of H with
+  | (if ?c then _ else _) = _ => destruct c; try discriminate
+  end; inversion H; subst; reflexivity.
+Qed.
+
+Lemma update_size_hint_total s a : total_out_ (update_size_hint s a) = total_out_ s.
+Proof. unfold update_size_hint. destruct (size_hint s =? 0); reflexivity. Qed.
+
+Lemma check_flush_total s : total_out_ (check_flush_complete s) = total_out_ s.
+Proof. unfold check_flush_complete. destruct (sstate_eqb (sstate_ s) SFlushRequested && (avail_out_ s =? 0)); reflexivity. Qed.
+
+Lemma acct_stream_loop T0 : forall fuel op s x r s' x',
+  acct T0 s x -> stream_loop fuel op s x = Done (r, s', x') -> acct T0 s' x'.
+Proof.
+  induction fuel as [|f IH]; intros op s x r s' x' Hk Hrun; [discriminate|].
+  cbn [stream_loop] in Hrun.
+  destruct (negb (remaining_input_block_size s =? 0) && negb (avail_in x =? 0)).
+  - eapply IH; [|exact Hrun]. exact Hk.
+  - destruct (inject_flush_or_push_output s x) as [[[s1 x1]|]| | |] eqn:Einj; try discriminate.
+    + eapply IH; [|exact Hrun]. eapply acct_inject; eassumption.
+    + match type of Hrun with (if ?c then _ else _) = _ => destruct c end.
+      * destruct (encode_data _ _ _) as [[[|] s2]| | |] eqn:Eenc; try discriminate.
+        -- pose proof (encode_data_total _ _ _ _ _ Eenc) as Et. rewrite update_size_hint_total in Et.
+           eapply IH; [|exact Hrun]. destruct Hk as [A B]. unfold acct.
+           destruct ((avail_in x =? 0) && opk_eqb op OpFlush), ((avail_in x =? 0) && opk_eqb op OpFinish); cbn;
+             rewrite Et; split; assumption.
+        -- inversion Hrun; subst. pose proof (encode_data_total _ _ _ _ _ Eenc) as Et.
+           rewrite update_size_hint_total in Et. destruct Hk as [A B]. unfold acct. rewrite Et. split; assumption.
+      * inversion Hrun; subst. destruct Hk as [A B]. unfold acct. rewrite check_flush_total. split; assumption.
+Qed.
+
+Lemma acct_fast_loop T0 : forall fuel op s x r s' x',
+  acct T0 s x -> fast_loop fuel op s x = Done (r, s', x') -> acct T0 s' x'.
+Proof.
+  induction fuel as [|f IH]; intros op s x r s' x' Hk Hrun; [discriminate|].
+  cbn [fast_loop] in Hrun.
+  destruct (inject_flush_or_push_output s x) as [[[s1 x1]|]| | |] eqn:Einj; try discriminate.
+  - eapply IH; [|exact Hrun]. eapply acct_inject; eassumption.
+  - match type of Hrun with (if ?c then _ else _) = _ => destruct c end.
+    + match type of Hrun with (if ?c then _ else _) = _ => destruct c end.
+      * eapply IH; [|exact Hrun]. exact Hk.
+      * destruct (fast_answer _ _ _ _ _) as [[a s1]| | |] eqn:Efa; try discriminate.
+        assert (Et : total_out_ s1 = total_out_ s).
+        { unfold fast_answer in Efa. destruct (oracle s) as [|a0 rest]; [discriminate|].
+          repeat match type of Efa with (if ?c then _ else _) = _ => destruct c; try discriminate end.
+          inversion Efa; subst; reflexivity. }
+        destruct Hk as [A B].
+        destruct (2 * N.min (2 ^ Z.to_N (lgwin s)) (avail_in x) + 503 <=? cap x).
+        -- eapply IH; [|exact Hrun]. unfold acct.
+           match goal with |- context [if ?c then _ else _] => destruct c end;
+           match goal with |- context [if ?c then _ else _] => destruct c end; cbn;
+           (split; [reflexivity|]); rewrite lenN_app, Et, B; unfold wadd64; rewrite w64_w64_add; f_equal; lia.
+        -- eapply IH; [|exact Hrun]. unfold acct.
+           match goal with |- context [if ?c then _ else _] => destruct c end;
+           match goal with |- context [if ?c then _ else _] => destruct c end; cbn;
+           rewrite Et; split; assumption.
+    + inversion Hrun; subst. destruct Hk as [A B]. unfold acct. rewrite check_flush_total. split; assumption.
+Qed.
+
+Lemma acct_meta_loop T0 payload : forall fuel s x r s' x',
+  acct T0 s x -> meta_loop fuel payload s x = Done (r, s', x') -> acct T0 s' x'.
+Proof.
+  induction fuel as [|f IH]; intros s x r s' x' Hk Hrun; [discriminate|].
+  cbn [meta_loop] in Hrun.
+  destruct (inject_flush_or_push_output s x) as [[[s1 x1]|]| | |] eqn:Einj; try discriminate.
+  - eapply IH; [|exact Hrun]. eapply acct_inject; eassumption.
+  - destruct (negb (avail_out_ s =? 0)); [inversion Hrun; subst; exact Hk|].
+    destruct (negb (input_pos s =? last_flush_pos s)).
+    + destruct (encode_data s false true) as [[[|] s2]| | |] eqn:Eenc; try discriminate.
+      * pose proof (encode_data_total _ _ _ _ _ Eenc) as Et.
+        eapply IH; [|exact Hrun]. destruct Hk as [A B]. unfold acct. rewrite Et. split; assumption.
+      * inversion Hrun; subst. pose proof (encode_data_total _ _ _ _ _ Eenc) as Et.
+        destruct Hk as [A B]. unfold acct. rewrite Et. split; assumption.
+    + destruct (sstate_eqb (sstate_ s) SMetaHead).
+      * eapply IH; [|exact Hrun]. destruct Hk as [A B]. unfold acct, write_metadata_header.
+        destruct (metadata_header_bits _ _ _). cbn. split; assumption.
+      * destruct (rem_meta s =? 0); [inversion Hrun; subst; exact Hk|].
+        destruct (negb (cap x =? 0)).
+        -- destruct (N.ltb_spec (lenN (skipN (in_off x) payload)) (N.min (rem_meta s) (cap x))) as [|Hlen]; try discriminate.
+           eapply IH; [|exact Hrun]. destruct Hk as [A B]. unfold acct. cbn.
+           split; [reflexivity|]. rewrite lenN_app, (lenN_takeN _ _ Hlen). unfold wadd64. rewrite B.
+           rewrite w64_w64_add. f_equal. lia.
+        -- destruct (lenN (skipN (in_off x) payload) <? N.min (rem_meta s) 16); try discriminate.
+           eapply IH; [|exact Hrun]. destruct Hk as [A B]. unfold acct. cbn. split; assumption.
+Qed.
+
+Lemma ensure_initialized_total s : total_out_ (ensure_initialized s) = total_out_ s.
+Proof.
+  unfold ensure_initialized. destruct (initialized s); [reflexivity|].
+  destruct (encode_window_bits _ _). reflexivity.
+Qed.
+
+Theorem stream_call_accounting s0 op payload offered capn r s' x' :
+  total_out_ s0 < 2 ^ 64 ->
+  compress_stream_from (total_out_ s0) s0 op payload offered capn = Done (r, s', x') ->
+  total_arg x' = total_out_ s' /\ total_out_ s' = w64 (total_out_ s0 + lenN (produced x')).
+Proof.
+  intros Hlt Hrun. unfold compress_stream_from in Hrun.
+  set (s := ensure_initialized s0) in *.
+  assert (Hk : acct (total_out_ s0) s {| avail_in := offered; in_off := 0; cap := capn; produced := []; total_arg := total_out_ s0 |}).
+  { unfold acct. cbn. subst s. rewrite ensure_initialized_total. split; [reflexivity|].
+    rewrite N.add_0_r. symmetry. apply N.mod_small. exact Hlt. }
+  match type of Hrun with (if ?c then _ else _) = _ => destruct c end; [inversion Hrun; subst; exact Hk|].
+  destruct (opk_eqb op OpMeta).
+  - unfold process_metadata in Hrun.
+    assert (Hk' : forall s1, total_out_ s1 = total_out_ s ->
+            acct (total_out_ s0) s1 {| avail_in := offered; in_off := 0; cap := capn; produced := []; total_arg := total_out_ s0 |}).
+    { intros s1 E. destruct Hk as [A B]. unfold acct. rewrite E. split; assumption. }
+    match type of Hrun with (if ?c then _ else _) = _ => destruct c end.
+    + inversion Hrun; subst. apply Hk'. apply update_size_hint_total.
+    + match type of Hrun with (if ?c then _ else _) = _ => destruct c end.
+      * inversion Hrun; subst. apply Hk'.
+        destruct (sstate_eqb (sstate_ (update_size_hint s 0)) SProcessing); cbn; apply update_size_hint_total.
+      * eapply acct_meta_loop; [|exact Hrun]. apply Hk'.
+        destruct (sstate_eqb (sstate_ (update_size_hint s 0)) SProcessing); cbn; apply update_size_hint_total.
+  - match type of Hrun with (if ?c then _ else _) = _ => destruct c end; [inversion Hrun; subst; exact Hk|].
+    match type of Hrun with (if ?c then _ else _) = _ => destruct c end; [inversion Hrun; subst; exact Hk|].
+    match type of Hrun with (if ?c then _ else _) = _ => destruct c end.
+    + eapply acct_fast_loop; eassumption.
+    + eapply acct_stream_loop; eassumption.
+Qed.
+
+(* ---- cursor accounting: what the call consumed / produced stays inside the buffers, and the
+        "available" counters decrease by exactly the amounts the cursors advance ---- *)
+Definition curs (offered capn : N) (x : io) : Prop :=
+  in_off x + avail_in x = offered /\ lenN (produced x) + cap x = capn.
+
+Lemma curs_inject offered capn s x s' x' : curs offered capn x ->
+  inject_flush_or_push_output s x = Done (Some (s', x')) -> curs offered capn x'.
+Proof.
+  unfold inject_flush_or_push_output. intros Hk H.
+  destruct (sstate_eqb (sstate_ s) SFlushRequested && negb (last_bytes_bits s =? 0)).
+  - destruct (inject_byte_padding_block s) as [s1| | |]; try discriminate. inversion H; subst; exact Hk.
+  - destruct (negb (avail_out_ s =? 0) && negb (cap x =? 0)); try discriminate.
+    destruct (N.ltb_spec (lenN (view s)) (N.min (avail_out_ s) (cap x))) as [|Hlen]; try discriminate.
+    inversion H; subst s' x'; clear H. destruct Hk as [A B]. unfold curs. cbn.
+    split; [exact A|]. rewrite lenN_app, (lenN_takeN _ _ Hlen). lia.
+Qed.
+
+Lemma curs_stream_loop offered capn : forall fuel op s x r s' x',
+  curs offered capn x -> stream_loop fuel op s x = Done (r, s', x') -> curs offered capn x'.
+Proof.
+  induction fuel as [|f IH]; intros op s x r s' x' Hk Hrun; [discriminate|].
+  cbn [stream_loop] in Hrun.
+  destruct (negb (remaining_input_block_size s =? 0) && negb (avail_in x =? 0)).
+  - eapply IH; [|exact Hrun]. destruct Hk as [A B]. unfold curs. cbn. split; [lia|exact B].
+  - destruct (inject_flush_or_push_output s x) as [[[s1 x1]|]| | |] eqn:Einj; try discriminate.
+    + eapply IH; [|exact Hrun]. eapply curs_inject; eassumption.
+    + match type of Hrun with (if ?c then _ else _) = _ => destruct c end.
+      * destruct (encode_data _ _ _) as [[[|] s2]| | |] eqn:Eenc; try discriminate.
+        -- eapply IH; [|exact Hrun]. exact Hk.
+        -- inversion Hrun; subst. exact Hk.
+      * inversion Hrun; subst. exact Hk.
+Qed.
+
+Lemma fast_answer_head s il ff ip blk a s1 : fast_answer s il ff ip blk = Done (a, s1) ->
+  exists rest, oracle s = a :: rest /\ a_fast a = true /\ a_block a = blk.
+Proof.
+  unfold fast_answer. intros H. destruct (oracle s) as [|a0 rest]; [discriminate|].
+  destruct (a_fast a0) eqn:Ef; cbn [negb] in H; [|discriminate].
+  destruct (Bool.eqb (a_is_last a0) il); cbn [negb] in H; [|discriminate].
+  destruct (Bool.eqb (a_force_flush a0) ff); cbn [negb] in H; [|discriminate].
+  destruct (N.eqb_spec (a_block a0) blk) as [Eb|]; cbn [negb] in H; [|discriminate].
+  destruct (Bool.eqb (a_inplace a0) ip); cbn [negb] in H; [|discriminate].
+  destruct (a_result a0); cbn [negb] in H; [|discriminate].
+  inversion H; subst. exists rest. repeat split; assumption.
+Qed.
+
+Lemma answer_ok_fast_size a : answer_ok a = true -> a_fast a = true -> lenN (a_out a) <= 2 * a_block a + 503.
+Proof.
+  unfold answer_ok. intros H Hf. rewrite Hf in H.
+  apply andb_true_iff in H. destruct H as [_ H]. apply N.leb_le; exact H.
+Qed.
+
+Lemma curs_fast_loop offered capn : forall fuel op s x r s' x',
+  all_ok (oracle s) -> curs offered capn x -> fast_loop fuel op s x = Done (r, s', x') -> curs offered capn x'.
+Proof.
+  induction fuel as [|f IH]; intros op s x r s' x' Hok Hk Hrun; [discriminate|].
+  cbn [fast_loop] in Hrun.
+  destruct (inject_flush_or_push_output s x) as [[[s1 x1]|]| | |] eqn:Einj; try discriminate.
+  - destruct (inject_some s x s1 x1 Einj) as [_ [_ [_ [D _]]]].
+    eapply IH; [| |exact Hrun]; [rewrite D; exact Hok|eapply curs_inject; eassumption].
+  - match type of Hrun with (if ?c then _ else _) = _ => destruct c end.
+    + match type of Hrun with (if ?c then _ else _) = _ => destruct c end.
+      * eapply IH; [| |exact Hrun]; [exact Hok|exact Hk].
+      * destruct (fast_answer _ _ _ _ _) as [[a s1]| | |] eqn:Efa; try discriminate.
+        destruct (fast_answer_ok _ _ _ _ _ _ _ Efa) as [rest [O1 [O2 _]]].
+        destruct (fast_answer_head _ _ _ _ _ _ _ Efa) as [rest' [O1' [Of Ob]]].
+        rewrite O1 in Hok. destruct (all_ok_tail _ _ Hok) as [Ha Hrest].
+        pose proof (answer_ok_fast_size a Ha Of) as Hsz. rewrite Ob in Hsz.
+        destruct Hk as [A B].
+        remember (N.min (2 ^ Z.to_N (lgwin s)) (avail_in x)) as block eqn:Eblk.
+        assert (Hble : block <= avail_in x) by (subst block; apply N.le_min_r).
+        destruct (N.leb_spec (2 * block + 503) (cap x)) as [Hcap|Hcap].
+        -- eapply IH; [| |exact Hrun].
+           ++ match goal with |- context [if ?c then _ else _] => destruct c end;
+              match goal with |- context [if ?c then _ else _] => destruct c end; cbn; rewrite O2; exact Hrest.
+           ++ unfold curs. cbn. split; [lia|]. rewrite lenN_app. lia.
+        -- eapply IH; [| |exact Hrun].
+           ++ match goal with |- context [if ?c then _ else _] => destruct c end;
+              match goal with |- context [if ?c then _ else _] => destruct c end; cbn; rewrite O2; exact Hrest.
+           ++ unfold curs. cbn. split; [lia|exact B].
+    + inversion Hrun; subst. exact Hk.
+Qed.
+
+Theorem stream_call_cursors s0 op payload offered capn r s' x' :
+  op <> OpMeta -> all_ok (oracle s0) ->
+  compress_stream s0 op payload offered capn = Done (r, s', x') ->
+  in_off x' + avail_in x' = offered /\ lenN (produced x') + cap x' = capn.
+Proof.
+  intros Hop Hok Hrun. unfold compress_stream, compress_stream_from in Hrun.
+  assert (Hk : curs offered capn {| avail_in := offered; in_off := 0; cap := capn; produced := []; total_arg := 0 |}).
+  { unfold curs. cbn. split; lia. }
+  assert (Hok' : all_ok (oracle (ensure_initialized s0))).
+  { unfold ensure_initialized. destruct (initialized s0); [exact Hok|]. destruct (encode_window_bits _ _). exact Hok. }
+  match type of Hrun with (if ?c then _ else _) = _ => destruct c end; [inversion Hrun; subst; exact Hk|].
+  assert (Eop : opk_eqb op OpMeta = false) by (destruct op; try reflexivity; contradiction Hop; reflexivity).
+  rewrite Eop in Hrun.
+  match type of Hrun with (if ?c then _ else _) = _ => destruct c end; [inversion Hrun; subst; exact Hk|].
+  match type of Hrun with (if ?c then _ else _) = _ => destruct c end; [inversion Hrun; subst; exact Hk|].
+  match type of Hrun with (if ?c then _ else _) = _ => destruct c end.
+  - eapply curs_fast_loop; eassumption.
+  - eapply curs_stream_loop; eassumption.
+Qed.
+
+(* ---- take_output hands out a prefix of the pending bytes and keeps the rest ---- *)
+Lemma skipN_skipN a b (l : list N) : skipN a (skipN b l) = skipN (b + a) l.
+Proof.
+  unfold skipN. rewrite N2Nat.inj_add.
+  generalize (N.to_nat a) (N.to_nat b). clear a b. intros a b. revert l.
+  induction b as [|b IH]; intros l; [reflexivity|]. destruct l as [|h t].
+  - cbn [skipn Nat.add]. destruct a; reflexivity.
+  - cbn [skipn Nat.add]. apply IH.
+Qed.
+
+Theorem take_output_prefix s n bs s' :
+  take_output s n = Done (bs, s') ->
+  (forall off, next_out s = NoDyn off \/ next_out s = NoTiny off -> off + avail_out_ s < 2 ^ 32) ->
+  let k := if n =? 0 then avail_out_ s else N.min n (avail_out_ s) in
+  bs = takeN k (view s) /\ avail_out_ s' = avail_out_ s - k
+  /\ total_out_ s' = (if k =? 0 then total_out_ s else wadd64 (total_out_ s) k)
+  /\ (avail_out_ s' <> 0 -> view s' = skipN k (view s)).
+Proof.
+  unfold take_output. intros H Hno. cbv zeta.
+  remember (if n =? 0 then avail_out_ s else N.min n (avail_out_ s)) as k eqn:Ek.
+  assert (Hk : k <= avail_out_ s) by (subst k; destruct (n =? 0); [lia|apply N.le_min_r]).
+  destruct (N.eqb_spec k 0) as [E0|E0].
+  - inversion H; subst bs s'. rewrite E0. repeat split; try reflexivity; try lia.
+  - destruct (lenN (view s) <? k); try discriminate. inversion H; subst bs s'; clear H.
+    split; [reflexivity|]. rewrite !check_flush_total.
+    assert (Ha : forall z, avail_out_ (check_flush_complete z) = avail_out_ z).
+    { intros z. unfold check_flush_complete. destruct (sstate_eqb (sstate_ z) SFlushRequested && (avail_out_ z =? 0)); reflexivity. }
+    rewrite Ha. cbn [avail_out_ upd_out total_out_]. split; [reflexivity|]. split; [reflexivity|].
+    intros Hrem. unfold check_flush_complete. cbn [avail_out_ upd_out sstate_].
+    destruct (N.eqb_spec (avail_out_ s - k) 0) as [C|_]; [contradiction|]. rewrite andb_false_r.
+    unfold view. cbn [next_out upd_out storage tiny].
+    destruct (next_out s) as [|off|off] eqn:En; cbn [no_incr].
+    + unfold skipN. destruct (N.to_nat k); reflexivity.
+    + assert (Hw : w32 (off + k) = off + k).
+      { apply N.mod_small. specialize (Hno off (or_introl eq_refl)). lia. }
+      rewrite Hw. symmetry. apply skipN_skipN.
+    + assert (Hw : w32 (off + k) = off + k).
+      { apply N.mod_small. specialize (Hno off (or_intror eq_refl)). lia. }
+      rewrite Hw. symmetry. apply skipN_skipN.
 Qed.
